@@ -70,6 +70,13 @@ pub const STAGES: &[&str] = &[
     "capacity family: cff hinted draw", // 27
     "colour gradient family: paint", // 28
     "colour index family: paint",    // 29
+    "metadata family: localized_strings", // 30
+    "metadata family: glyph_names",  // 31
+    "metadata family: axes/named_instances", // 32
+    "metadata family: metrics/glyph_metrics", // 33
+    "metadata family: charmap",      // 34
+    "metadata family: FontRef",      // 35
+    "BuiltInBrotliDecoder::decode",  // 36
 ];
 
 /// Called by drivers immediately before a call into the code under test.
@@ -451,6 +458,9 @@ pub fn worker_main(run: &dyn Fn(&Value) -> CaseOut) -> ! {
             rlim_max: 6 << 30,
         };
         libc::setrlimit(libc::RLIMIT_AS, &lim);
+        // an aborting worker (allocation failure, stack overflow) must not leave core files behind
+        let nocore = libc::rlimit { rlim_cur: 0, rlim_max: 0 };
+        libc::setrlimit(libc::RLIMIT_CORE, &nocore);
     }
     std::thread::spawn(move || monitor(watchdog_ms));
     let stdin = std::io::stdin();
